@@ -18,8 +18,14 @@ for name in sorted(os.listdir(os.path.join(V, 'seeded'))):
     how = det.get('first_violation', '') or ' '.join(det.get('tail', [])[-1:])
     for op, r in (det.get('other_checks') or {}).items():
         how = (how + ' — ' if how else '') + 'also run against %s: %s' % (op, r.get('verdict'))
-    how = how.replace('|', '\\|')[:220]
-    rows.append('| %s | %s | %s | %s %s | **%s** (%ss) | %s |' % (name, title.replace('|', '\\|')[:150], 'yes' if meta.get('confirmed') else 'NO',
+    if meta.get('rebased'):
+        how = (how + ' — ' if how else '') + 'patch rebased onto the repaired tree'
+    if meta.get('obsolete'):
+        how = (how + ' — ' if how else '') + 'OBSOLETE: ' + meta['obsolete']
+    if det.get('repo_head'):
+        how = (how + ' ' if how else '') + '[at %s]' % det['repo_head']
+    how = how.replace('|', '\\|')[:300]
+    rows.append('| %s | %s | %s | %s %s | **%s** (%ss) | %s |' % (name, title.replace('|', '\\|')[:150], 'yes' if meta.get('confirmed') in (True, 'True', 'true') else 'NO',
                                                           det.get('property', meta.get('property')), det.get('tier', ''), det.get('verdict', 'not run'), det.get('seconds', '-'), how))
 table = '\n'.join(rows)
 p = os.path.join(V, 'DESIGN.md')
